@@ -3,7 +3,7 @@ LIVE.a (no waiting, no blocking) for known-size sources."""
 from env import Ob
 from guards import block_facts, unref
 from terms import fmt, subterms, PURE, callee_model_key
-from r_ticket import _ticket, receiver_kind, owner_of
+from r_ticket import _ticket, receiver_kind, owner_of, all_callers
 from r_m1 import _m1
 
 BLOCKING = ("std::sync::Mutex", "std::sync::RwLock", "std::sync::Condvar", "std::thread::park", "std::thread::sleep",
@@ -89,6 +89,34 @@ def _held_starts(T, env, b, sa):
     return starts
 
 
+def _probe_chain(env, T, e):
+    """the load event e (inlined from a callee of the analysed function) is not inside a loop of any function between the
+    analysed function and the load: each execution of the call site reads the counter exactly once"""
+    frames = [(fr[0], fr[1]) for fr in e.info["chain"][1:]] + [(e.body, e.bb)]
+    for (bd, bb) in frames:
+        if any(bb in lb for (_h, lb) in bd.natural_loops()):
+            return False
+    return True
+
+
+def _is_probe(env, T, b, sa, own_loads):
+    """b reads the now-serving counter outside any loop, is private to the crate, and every call of it (in the ticket
+    implementor's functions) sits in a loop of its caller or is itself judged as a waiting function: b reports, its callers
+    wait. Only claimed when b returns a bool or a field-less enum (a verdict, not a reservation)."""
+    if any(any(e.bb in lb for (_h, lb) in e.body.natural_loops()) for e in own_loads if e.body.def_ == b.def_):
+        return False
+    if b.natural_loops():
+        return False
+    rt = b.locals[0]["ty"]["s"].replace("core::", "std::")
+    if rt != "bool":
+        from facts import norm_std
+        a = env.F.adts.get(norm_std(rt.split("<")[0]))
+        if not a or a.get("kind") != "Enum" or any(v["fields"] for v in a["variants"]):
+            return False
+    callers = all_callers(env, b.def_)
+    return bool(callers) and all(any(bb in lb for (_h, lb) in cb.natural_loops()) for (cb, bb) in callers)
+
+
 def rule_live(env, shared):
     """LIVE: (a) pulls of known-size sources contain no wait loop (a cycle whose continuation depends on an atomic load)
     and call nothing blocking; (b) every wait loop of the ticket protocol re-reads the now-serving counter and has exits
@@ -145,8 +173,11 @@ def rule_live(env, shared):
         ctx = env.ctx(b, sa, T.world)
         evs = T.direct_events(b, sa)
         for (h, body_) in b.natural_loops():
+            # loads of this function, and loads of a probing helper it calls from the loop (`loop { match self.turn_of(i) {..} }`):
+            # the helper reads once per call and has no loop of its own around the read, so this loop is the wait loop
             loads = [e for e in evs if e.info["top_bb"] in body_ and e.kind == "atomic" and e.info["op"] == "load"
-                     and owner_of(env, e, b).def_ == b.def_]
+                     and (owner_of(env, e, b).def_ == b.def_ or
+                          (T.role_of(e.info["place"])[0] == "serving" and _probe_chain(env, T, e)))]
             if not loads:
                 continue
             k = "LIVE.b|%s|loop@bb-header" % env.fname(b)
@@ -157,7 +188,12 @@ def rule_live(env, shared):
                 for y in b.succ(x):
                     if y in body_:
                         continue
-                    for f in block_facts(ev, ctx, y):
+                    fs_y = list(block_facts(ev, ctx, y))
+                    for f in list(fs_y):
+                        if f[0] == "anyof":  # left on a verdict of a probing helper: any of the ways it produces that verdict
+                            for alt in f[1]:
+                                fs_y.extend(alt)
+                    for f in fs_y:
                         if f[0] == "eq" and len(f) == 3 and any(z[0] == "atomic" or T.serving_load(z) is not None for z in (f[1], f[2])):
                             ex["eq"] = True
                         if f[0] == "lt" and len(f) == 3 and T.serving_load(f[2]) is not None:
@@ -240,21 +276,32 @@ def rule_live(env, shared):
         # only functions that wait: they contain a load of the now-serving counter of their own
         own_loads = [e for e in T.direct_events(b, sa) if e.kind == "atomic" and e.info["op"] == "load"
                      and T.role_of(e.info["place"])[0] == "serving" and owner_of(env, e, b).def_ == b.def_]
-        if not own_loads:
+        # .. or that wait by calling a probing helper from a loop (the helper reads the counter once and reports what it
+        # saw; it gives nothing up by returning — the function that loops around it is the one that waits)
+        probe_loads = [e for e in T.direct_events(b, sa) if e.kind == "atomic" and e.info["op"] == "load"
+                       and T.role_of(e.info["place"])[0] == "serving" and owner_of(env, e, b).def_ != b.def_
+                       and _probe_chain(env, T, e) and any(e.info["top_bb"] in lb for (_h, lb) in b.natural_loops())]
+        if own_loads and _is_probe(env, T, b, sa, own_loads):
+            continue
+        if not own_loads and not probe_loads:
             continue
         k = "LIVE.e|%s" % env.fname(b)
         bad = None
+
+        def _fine(fs):
+            for f in fs:
+                if f[0] == "lt" and len(f) == 3 and T.serving_load(f[2]) is not None:
+                    return True
+                if f[0] == "flag" and f[2] is True and T.role_of(f[1])[0] == "done":
+                    return True
+                if T.is_admission(f):
+                    return True  # admitted: LIVE.c requires the release or a sound hand-over
+                if f[0] == "anyof" and f[1] and all(_fine(alt) for alt in f[1]):
+                    return True  # (whichever way the probed value was produced)
+            return False
         for bi, cases in sorted(T.ret_sites(b, sa).items()):
             for (K, fs, _v) in cases:
-                okk = False
-                for f in fs:
-                    if f[0] == "lt" and len(f) == 3 and T.serving_load(f[2]) is not None:
-                        okk = True
-                    if f[0] == "flag" and f[2] is True and T.role_of(f[1])[0] == "done":
-                        okk = True
-                    if T.is_admission(f):
-                        okk = True  # admitted: LIVE.c requires the release or a sound hand-over
-                if not okk:
+                if not _fine(fs):
                     bad = b.file_line(b.term(bi)["loc"])
         if bad:
             out.append(Ob("LIVE.e", k, "viol", bad,
